@@ -384,6 +384,10 @@ class QSeparableConv2DTranspose(Conv2DTranspose):
         "bias_quantizer": constraints.serialize(
             self.bias_quantizer_internal,
             ),
+        "depthwise_activation": constraints.serialize(
+            self.depthwise_activation),
+        "pointwise_activation": constraints.serialize(
+            self.pointwise_activation),
     })
     return config
 
